@@ -1048,7 +1048,22 @@ def rule_id_attr(model):
     return r
 
 
-RULES_PLAIN = [rule_mirror, rule_chunks, rule_encoder_twins, rule_cleanup_loop, rule_link_agreement, rule_path_stack, rule_apply_diff, rule_expand_all_isolation, rule_id_attr]
+def rule_fresh_state(model):
+    """The expansion state is updated in place (apply_diff): every state
+    the tag builds for a request must be a fresh object, never one that
+    lives as long as the module (a mutable default argument)."""
+    from .c17 import rule_defaults
+    r = rule_defaults(model, 'C20.R10',
+                      select=lambda fi: fi.module.short == 'TreeTag',
+                      floor=12)
+    r.text = ('the tree state is updated in place: no state (or part of '
+              'one) the tag builds is a module-lifetime object such as a '
+              'mutable default argument -- it would carry one visitor\'s '
+              'expansions into every later cookie-less request')
+    return r
+
+
+RULES_PLAIN = [rule_mirror, rule_chunks, rule_encoder_twins, rule_cleanup_loop, rule_link_agreement, rule_path_stack, rule_apply_diff, rule_expand_all_isolation, rule_id_attr, rule_fresh_state]
 RULES = [_inl(r_) for r_ in RULES_PLAIN] if INLINED_VIEW else RULES_PLAIN
 EXPLANATION = (
     'Stage extraction of the encoder and decoder pipelines and comparison '
